@@ -50,6 +50,19 @@ def hmain(salt, n):
     return [hfinish(salt, hstep(salt, h, i), i) for i in range(n)]
 
 
+@task(name="hslow", namespace=P.NS, version="1")
+def hslow(salt, i):
+    return i
+
+
+@task(name="hmain_lazy", namespace=P.NS, version="1")
+def hmain_lazy(salt, n):
+    # the same handle goes to n sibling steps whose other argument is a lazy value: the steps become ready in the order in
+    # which those values arrive
+    h = Conn("c")
+    return [hstep(salt, h, hslow(salt, i)) for i in range(n)]
+
+
 def fingerprint(backend, exec_id):
     s = backend.session
     jobs = s.query(db.Job).filter(db.Job.execution_id == exec_id).all()
@@ -85,6 +98,11 @@ def _run(kind, spec_or_n, pick, limits, leaf_limits, mid_limits, early, symbolic
         lab, outcome, _ = P.run_case(spec_or_n, pick, limits, leaf_limits, mid_limits, early=early, symbolic=symbolic,
                                      with_bad=with_bad, salt=salt, backend=backend, hog_limits=L._hog(limits),
                                      run_kwargs={"execution_id": "E"}, **kw)
+    elif kind == "handles_lazy":
+        from vp.stubs.schedlab import Lab
+        hstep._task_options_base["limits"] = []
+        lab = Lab(pick, limits={}, early=early, backend=backend, symbolic=False, fifo_tasks=() if reference else ("hmain_lazy",))
+        outcome = lab.run(hmain_lazy(salt, spec_or_n), execution_id="E")
     else:
         from vp.stubs.schedlab import Lab
         hstep._task_options_base["limits"] = leaf_limits
@@ -100,9 +118,11 @@ def compare(kind, spec_or_n, pick, limits, leaf_limits, mid_limits, early, symbo
     ref_demand = {"r": 1} if isinstance(leaf_limits, dict) else ["r"]
     # reference: strictly serial, depth-first execution (the most recently submitted job completes first, so nothing ever
     # runs concurrently and duplicates are served by the backend), ample resources
-    ref_out, ref_fp, _ = _run(kind, spec_or_n, lambda n, label: n - 1, ref_limits, ref_demand, mid_limits, 0, False, with_bad,
-                              reference=True)
+    ref_out, ref_fp, ref_lab = _run(kind, spec_or_n, lambda n, label: n - 1, ref_limits, ref_demand, mid_limits, 0, False, with_bad,
+                                    reference=True)
+    LAST["ref_slow_order"] = [a for (t, a) in ref_lab.completion_log if t == "hslow"]
     out, fp, lab = _run(kind, spec_or_n, pick, limits, leaf_limits, mid_limits, early, symbolic, with_bad)
+    LAST["slow_order"] = [a for (t, a) in lab.completion_log if t == "hslow"]
     if out[0] == "deadlock" or ref_out[0] == "deadlock":
         return None  # termination is C09's subject
     if ref_out[0] == "error" and out[0] == "error":
@@ -115,6 +135,9 @@ def compare(kind, spec_or_n, pick, limits, leaf_limits, mid_limits, early, symbo
             return "%s differ from the reference run: %d only in this run, %d only in the reference (of %d)" % (
                 k, len(fp[k] - ref_fp[k]), len(ref_fp[k] - fp[k]), len(ref_fp[k]))
     return None
+
+
+LAST = {}
 
 
 def _dup_failing(spec):
@@ -150,6 +173,22 @@ def c07_handles(k: int) -> bool:
     return guard(body, k=k)
 
 
+def c07_handles_lazy(k: int) -> bool:
+    """
+    post: _
+    """
+    def body():
+        n, early = SL()
+
+        def run():
+            v = compare("handles_lazy", n, choose, {}, [], None, early, False, 0)
+            if v is not None and excluded("handle-fork-key-follows-readiness-order") and LAST["slow_order"] != LAST["ref_slow_order"]:
+                return True
+            return v is None
+        return native(run)
+    return guard(body, k=k)
+
+
 SHARED = [B[6], B[6], B[0]]
 WRAPPED = [(1, 0, 0, 5), (1, 0, 0, 5), B[0]]  # the same non-leaf call returned by two different wrapper jobs
 _Q = [(3, 0, 0, 0, 0, 0, 4, WRAPPED), (3, 0, 0, 1, 1, 0, 4, WRAPPED)] + [(3, f, 0, 0, 0, 0, L.NQ, None) for f in (0, 1, 2)] + [(3, 0, 0, 0, 0, 0, 4, SHARED), (3, 0, 1, 1, 0, 0, 4, SHARED),
@@ -162,6 +201,9 @@ CONDITIONS = [
               timeout=300, thorough_timeout=2400,
               bounds="slice = (parallel chains sharing one handle, early mode, limit form); limit and demand symbolic, schedule "
                      "solver-chosen"),
+    Condition(c07_handles_lazy, slices=[(2, 0), (3, 0)], thorough_slices=[(2, 0), (3, 0), (2, 1), (3, 1)], timeout=200, thorough_timeout=900,
+              bounds="slice = (sibling steps that share one handle and each take a lazily computed second argument, early mode); "
+                     "the order in which the lazy arguments arrive is solver-chosen; no resource limits"),
 ]
 
 
@@ -182,6 +224,12 @@ def replay(cond, args, extra):
         limit = nxt()
         return {"r": limit}, {"r": nxt()}
     pick = lambda m, label: min(nxt(), m - 1) if pos[0] < len(items) else 0
+    if cond == "c07_handles_lazy":
+        n, early = extra["slice"]
+        v = compare("handles_lazy", n, pick, {}, [], None, early, False, 0)
+        fid = "handle-fork-key-follows-readiness-order" if (v and LAST["slow_order"] != LAST["ref_slow_order"]) else None
+        return (v is not None), "one handle passed to %d sibling steps hstep(h, hslow(i)); lazy arguments arrived in the order %r (reference %r): %s" % (
+            n, LAST["slow_order"], LAST["ref_slow_order"], v), fid
     if cond == "c07_handles":
         n, early, form = extra["slice"]
         limits, leaf_limits = limits_of(form)
